@@ -173,6 +173,23 @@ def run_C03(em, impl, tabs, rng, thorough):
         b = gen.build(tabs, ident, rng, maxcount=31, maskmode="full")
         if b is not None and len(b.payload) <= 1023:
             blds.append(b)
+    # the largest payload a frame can carry: a message padded with trailing bytes to exactly 1023 / 1022 bytes, and counts chosen so that the
+    # fields themselves fill (almost) all of it
+    for b in list(blds[:: max(1, len(blds) // 6)]):
+        for n_ in (1023, 1022):
+            if len(b.payload) < n_:
+                em.direct_evaluations += 1
+                t2, m2 = impl.construct(b.payload + bytes(n_ - len(b.payload)), 1)
+                t1, m1 = impl.construct(b.payload, 1)
+                if t1 == 0 and (t2 != 0 or gen.public_attrs(m2) != gen.public_attrs(m1)):
+                    em.violation("C03: a %s message padded with trailing bytes to %d bytes does not decode like the unpadded one" % (b.ident, n_),
+                                 {"payload": (b.payload + bytes(n_ - len(b.payload))).hex()}, {"outcome": vlib.TAGNAME[t2]})
+    for ident, fc in (("1033", {"DF029": 255, "DF032": 255, "DF227": 255, "DF229": 249, "DF231": 0}), ("1029", {"DF139": 255})):
+        if ident in tabs.ALL:
+            bb = gen.build(tabs, ident, rng, force_counts=fc)
+            if bb is not None and len(bb.payload) <= 1023:
+                blds.append(bb)
+                em.count("maxfill.%s.%d" % (ident, len(bb.payload)))
     for b in blds:
         em.count("ident." + b.ident[:4])
         add_case(em, impl, b.payload, 1, FULL, "builder-made %s payload (%d bytes)" % (b.ident, len(b.payload)))
@@ -310,6 +327,9 @@ def run_C07(em, impl, tabs, rng, thorough):
         for what, pl in gen.nested_payloads(rng, inner):
             pays.append(pl)
             em.count("nested." + what.replace(" ", "_"))
+    # payloads beginning with zero bytes (message numbers 0..15) and consisting of zeros only: leading zeros are payload
+    for pl in (b"\x00\x00", b"\x00\x10\xaa\xbb", b"\x00\x00\x00\x07", b"\x00\xf0" + bytes(9), bytes(40), b"\x00\x01" + bytes(rng.getrandbits(8) for _ in range(1021))):
+        pays.append(pl)
     # frames whose checksum looks like something else (ends in CR LF, begins with the preamble, ...)
     for base in (pays[0], bytes([0x3e, 0xd0]) + bytes(rng.getrandbits(8) for _ in range(17)), bytes([0xfa, 0x10]) + bytes(rng.getrandbits(8) for _ in range(38))):
         if len(base) >= 4:
@@ -524,8 +544,9 @@ def run_C13(em, impl, tabs, rng, thorough):
               "print(json.dumps([[impl.observe(p,1,0)[0].hex(),[f.hex() for f in impl.observe(p,1,0)[1]]] for p in ps]))") % ([_os.path.dirname(__file__), _os.path.join(_os.path.dirname(_os.path.dirname(__file__)), "tools")],)
     uniq = sorted(set(order))
     views = []
-    for perm in (uniq, uniq[::-1], sorted(uniq, key=lambda x: (len(x), x[::-1]))):
-        pr = _sp.run([sys.executable, "-c", helper], input=_json.dumps([x.hex() for x in perm]), capture_output=True, text=True, env=dict(_os.environ), timeout=600)
+    # the third order runs with warnings turned into errors (python -W error): a parse may not depend on whether a warning was already issued
+    for perm, flags in ((uniq, []), (uniq[::-1], []), (sorted(uniq, key=lambda x: (len(x), x[::-1])), ["-W", "error"]), (uniq, ["-W", "error"])):
+        pr = _sp.run([sys.executable] + flags + ["-c", helper], input=_json.dumps([x.hex() for x in perm]), capture_output=True, text=True, env=dict(_os.environ), timeout=600)
         if pr.returncode != 0:
             em.violation("C13: fresh interpreter failed", {}, pr.stderr[-400:])
             continue
